@@ -65,7 +65,13 @@ def main(argv):
             import traceback
             traceback.print_exc()
             res.inconclusive.append("monitor error: %s: %s" % (type(e).__name__, str(e)[:300]))
-        return core.finish(res, level=getattr(mod, "LEVEL", "exploration"))
+        try:
+            return core.finish(res, level=getattr(mod, "LEVEL", "exploration"))
+        except Exception as e:   # reporting must not turn a defect of the machinery into exit 1
+            import traceback
+            traceback.print_exc()
+            print("INCONCLUSIVE property=%s monitor error while reporting: %s: %s" % (pid, type(e).__name__, str(e)[:200]))
+            return core.EXIT_INCONCLUSIVE
     if cmd == "survey":
         # dev helper: class histogram of observations without writing evidence
         import collections, json
